@@ -66,6 +66,7 @@ func (c06) Gen(r *core.Rng, tier string, idx int) *core.Trace {
 		t.Cfg["bigdir"] = r.Range(40, 300)
 	}
 	t.Cfg["collide"] = int64(r.Intn(2))
+	t.Cfg["twins"] = int64(r.PickW(55, 45))
 	t.Cfg["symlinks"] = int64(r.Intn(2))
 	t.CfgS["volid"] = core.PickOf(r, "", "MYVOL", "A_LONGER_VOLUME_ID_0123456789", "X")
 	return t
@@ -147,6 +148,16 @@ func c06Tree(t *core.Trace) []imgEntry {
 		for i := int64(0); i < bd; i++ {
 			p := fmt.Sprintf("many/entry-number-%04d.dat", i)
 			tree = append(tree, mk(p, int64(len(p))+6+i%7))
+		}
+	}
+	if t.I("twins") == 1 {
+		// directories that share a name under different parents, and a directory named like a sibling of its
+		// parent: a lookup that matches path components by name alone ends up in the wrong one
+		for _, d := range []string{"twina", "twinb", "twina/common", "twinb/common", "twinb/twina", "twinb/twina/common"} {
+			tree = append(tree, imgEntry{Path: d, Dir: true})
+		}
+		for _, f := range []string{"twina/common/inner.txt", "twinb/common/inner.txt", "twinb/twina/inner.txt", "twinb/twina/common/inner.txt", "twina/only_a.txt", "twinb/only_b.txt"} {
+			tree = append(tree, mk(f, int64(len(f))+6+int64(r.Intn(3000))))
 		}
 	}
 	if t.I("symlinks") == 1 && (t.I("mode")%4 == 1 || t.I("mode")%4 == 3) && len(tree) > 0 {
